@@ -42,7 +42,7 @@ HeapAfter(vals) == LET L == UNION {Leaves(v) : v \in vals} IN LeafMap(L) @@ heap
 RateClasses(e, X, vals, lim) ==
   LET n == N(e)
       ts == TieSize(vals)
-  IN  {"kind=" \o e.model.kind, "n=" \o ToString(n), "gamma=" \o e.model.gamma}
+  IN  {"kind=" \o e.model0.kind, "n=" \o ToString(n), "gamma=" \o e.model0.gamma}
       \cup (IF \E i \in 1..n : ts[i] > 1 THEN {"ties"} ELSE {})
       \cup (IF \E i \in 1..n : ts[i] > 2 THEN {"multiway_tie"} ELSE {})
       \cup (IF \E i \in 1..n : Len(e.teams.items[i].items) > 1 THEN {"teams"} ELSE {})
@@ -56,8 +56,10 @@ RateClasses(e, X, vals, lim) ==
               \cup (IF \E s \in AllSlots(e) : X[s[1]][s[2]].clamp THEN {"clamp"} ELSE {})
               \cup (IF \E s \in AllSlots(e) : X[s[1]][s[2]].guard THEN {"guardband"} ELSE {}))
 
+\* m is the model as its owner configured it (construction, plus the caller's own assignments): when the library itself
+\* has changed an attribute in an earlier call, the calls that follow are still judged by the configuration the owner chose
 RateVerdict(e) ==
-  LET m    == e.model
+  LET m    == e.model0
       c    == Call(e)
       wf   == WFRateCall(m.kind, c)
       comp == wf /\ Computable(m, c)
@@ -83,7 +85,7 @@ RateVerdict(e) ==
   IN  [fails |-> fails, cls |-> cls, X |-> X]
 
 PredictVerdict(e) ==
-  LET m    == e.model
+  LET m    == e.model0
       wf   == WFTeams(m.kind, e.teams)
       comp == wf /\ PredictComputable(m, e.teams)
       dom  == comp /\ InDomainPredict(m, e.teams)
